@@ -9,7 +9,7 @@ SENT_LO, SENT_HI = -(1 << 30), (1 << 30) - 1
 
 META = {
     "property": "C18",
-    "proof_modules": ["PyodaProofs.C18"],
+    "proof_modules": ["PyodaProofs.C18", "PyodaProofs.C18YearMonth"],
     "drivers": ["drv_intervals"],
     "theorems": [
         "Pyoda.C18.new_ok_iff", "Pyoda.C18.new_rejects_iff", "Pyoda.C18.new_total",
@@ -22,19 +22,31 @@ META = {
         "Pyoda.C18.interval_new_ok_iff", "Pyoda.C18.interval_new_rejects", "Pyoda.C18.mem_iff_halfopen",
         "Pyoda.C18.has_bounds_iff", "Pyoda.C18.bound_raises_iff_unbounded", "Pyoda.C18.duration_eq",
         "Pyoda.C18.empty_iff_start_eq_end", "Pyoda.C18.interval_eq_iff",
+        "Pyoda.C18.ym_interval_ok", "Pyoda.C18.ym_interval_raises_iff", "Pyoda.C18.ym_interval_total", "Pyoda.C18.ym_len",
+        "Pyoda.C18.ym_day_fields", "Pyoda.C18.ym_subset_range", "Pyoda.C18.ym_mem_iff", "Pyoda.C18.ym_disjoint",
+        "Pyoda.C18.ym_next_exists", "Pyoda.C18.ym_adjacent_union", "Pyoda.C18.ym_partition_year", "Pyoda.C18.ym_partition_unique",
+        "Pyoda.C18.toMonth_succ_key", "Pyoda.C18.ym_succ_key_adjacent", "Pyoda.C18.ym_succ_month_adjacent",
+        "Pyoda.C18.first_month_starts_year", "Pyoda.C18.last_month_ends_year", "Pyoda.C18.ym_year_wrap_adjacent",
+        "Pyoda.C18.all19", "Pyoda.C18.ym_interval_all",
     ],
     "trusted_base": [
         "order of LocalDate values of one calendar = order of their day numbers (LocalDate._days_since_epoch; the direct oracle "
         "compares the real objects' answers with integer comparisons on those day numbers, C01 covers the calendars themselves)",
         "DateInterval.__iter__'s plus_days range check is not modelled (all dates it builds lie inside [start, end])",
+        "YearMonth.to_date_interval: calendars enter the theorems through C01's well-formedness predicate WF (symbolic instances for "
+        "ISO/Gregorian, Julian, Coptic, the 8 Islamic calendars, Persian simple and arithmetic; for Hebrew civil/scriptural, Persian "
+        "astronomical, Um Al Qura and Badi the hypothesis Pyoda.C09.Evaluated of all19 / ym_interval_all is discharged by EVALUATING "
+        "wfCheck on the compiled driver on every run: ops cal.wf 4|5|8|17|18, oracle 'evaluated-hypotheses' - the Lean compiler is "
+        "trusted for that step; C09.Evaluated also lists yearLenCheck for the Hebrew calendars, which these theorems do not use)",
     ],
     "partial": [
-        "YearMonth.to_date_interval is checked by the direct oracle only (interior years of every calendar), it has no Lean model",
         "Interval.__repr__/DateInterval.__repr__ (text) are outside the theorems",
     ],
     "rule": "pairs of intervals are enumerated exhaustively over a small universe of end points around a base interval "
             "(all 13 Allen relations, adjacency by exactly one day, a one-day gap, single-day intervals, end before start), "
-            "placed at day 0, at both ends of every calendar's range and at seeded random offsets; distinct = distinct op line; "
+            "placed at day 0, at both ends of every calendar's range and at seeded random offsets; YearMonth.to_date_interval: every "
+            "month of the first, second, middle, last-but-one and last year of each of the 19 calendars and of seeded years, "
+            "months 0 / n+1 / -1 / 33 and years beyond both range ends (must raise); distinct = distinct op line; "
             "non-trivial = every op",
 }
 
@@ -158,6 +170,9 @@ def impl(t):
     if op == "di.eq":
         I, J = mk_di(a[0:4]), mk_di(a[4:8])
         return ints(I == J)
+    if op == "ym.interval":
+        from pyoda_time import YearMonth
+        return show_di(YearMonth(year=a[1], month=a[2], calendar=cals()[a[0]]).to_date_interval())
     if op == "iv.new":
         I = mk_iv(a)
         return si(I._Interval__start) + " " + si(I._Interval__end)
@@ -203,6 +218,8 @@ def oracle(t):
     from pyoda_time import DateInterval
     op = t[0]
     a = [int(x) for x in t[1:]]
+    if op == "ym.interval":
+        return oracle_year_month(a[0], a[1], a[2])
     if op.startswith("di."):
         specs = [a[0:4]] if op in ("di.new", "di.cont", "di.len", "di.iter") else [a[0:4], a[4:8]]
         if op == "di.new" or not all(_valid(s) for s in specs):
@@ -558,46 +575,151 @@ def gen_ops(ctx):
     return ops
 
 
-def year_month_cases(ctx):
+def year_month_years(ctx, c):
+    """years whose months are exercised: both range ends, their neighbours, the middle, year 1 / 0 where valid, seeded ones"""
     rng = ctx.rng
-    out = []
+    ys = {c.min_year, c.min_year + 1, c.max_year - 1, c.max_year, (c.min_year + c.max_year) // 2}
+    ys |= {y for y in (-1, 0, 1, 2) if c.min_year <= y <= c.max_year}
+    n = ctx.scale(24, 600)
+    while len(ys) < n:
+        ys.add(rng.randint(c.min_year, c.max_year))
+    return sorted(ys)
+
+
+def gen_year_month_ops(ctx):
+    ops, years = [], []
     for o, c in sorted(cals().items()):
-        ys = {c.min_year + 1, c.max_year - 1, (c.min_year + c.max_year) // 2}
-        while len(ys) < ctx.scale(12, 400):
-            ys.add(rng.randint(c.min_year + 1, c.max_year - 1))
-        for y in sorted(ys):
-            for m in range(1, c.get_months_in_year(y) + 1):
-                out.append((o, y, m))
-    return out
+        for y in year_month_years(ctx, c):
+            n = c.get_months_in_year(y)
+            years.append((o, y))
+            for m in range(1, n + 1):
+                ops.append(f"ym.interval {o} {y} {m}")
+            for m in (0, n + 1, -1, 33):                       # months the constructor must refuse
+                ops.append(f"ym.interval {o} {y} {m}")
+        for y in (c.min_year - 1, c.max_year + 1, c.min_year - 400, c.max_year + 400, 20000, -20000):   # years outside the calendar
+            for m in (1, 6, 12, 13):
+                ops.append(f"ym.interval {o} {y} {m}")
+    return ops, years
 
 
-def check_year_month(case):
+def _ym_interval(o, y, m):
     from pyoda_time import YearMonth
-    o, y, m = case
+    return YearMonth(year=y, month=m, calendar=cals()[o]).to_date_interval()
+
+
+def oracle_year_month(o, y, m):
+    """YearMonth(y, m).to_date_interval() on the real code, against the calendar's own day <-> (year, month, day) mapping:
+    the interval is exactly the days of that month, the month that starts the day after it is adjacent to it (union = span,
+    intersection empty), and construction raises ValueError exactly for a year or month the calendar does not have."""
     c = cals()[o]
-    I = YearMonth(year=y, month=m, calendar=c).to_date_interval()
+    valid = c.min_year <= y <= c.max_year and 1 <= m <= c.get_months_in_year(y)
+    try:
+        I = _ym_interval(o, y, m)
+    except ValueError:
+        if valid:
+            return {"key": "yearmonth-rejected", "what": f"YearMonth({y},{m}) in calendar {c.id} raised ValueError for an existing month"}
+        return None
+    if not valid:
+        return {"key": "yearmonth-accepted", "what": f"YearMonth({y},{m}) in calendar {c.id}: accepted (interval {show_di(I)}) although "
+                f"the calendar has years {c.min_year}..{c.max_year} and that year has "
+                f"{c.get_months_in_year(y) if c.min_year <= y <= c.max_year else 'no'} months"}
     s, e = dn(I.start), dn(I.end)
     got = [(x.year, x.month, x.day) for x in I]
     n = c.get_days_in_month(y, m)
     exp = [(y, m, k) for k in range(1, n + 1)]
-    if got != exp or len(I) != n:
-        return {"key": "yearmonth-interval", "what": f"YearMonth({y},{m}) in calendar {c.id}: interval {I!r} has days {got[:3]}…{got[-2:]}, expected days 1..{n}"}
+    if got != exp or len(I) != n or e - s + 1 != n or co(I.start) != o or co(I.end) != o:
+        return {"key": "yearmonth-interval", "what": f"YearMonth({y},{m}) in calendar {c.id}: interval {show_di(I)} has days "
+                f"{got[:3]}...{got[-2:]}, expected days 1..{n} of that month"}
     for d in (s - 1, e + 1):
         if c._min_days <= d <= c._max_days:
             x = ld(o, d)
             if (x.year, x.month) == (y, m):
-                return {"key": "yearmonth-interval", "what": f"YearMonth({y},{m}) in {c.id}: day {d} outside the interval is in the same month"}
+                return {"key": "yearmonth-interval", "what": f"YearMonth({y},{m}) in {c.id}: day {d} outside the interval {show_di(I)} is in the same month"}
+        elif (d == s - 1 and s != c._min_days) or (d == e + 1 and e != c._max_days):
+            return {"key": "yearmonth-interval", "what": f"YearMonth({y},{m}) in {c.id}: interval {show_di(I)} leaves the calendar's day range"}
+    if e + 1 <= c._max_days:
+        nx = ld(o, e + 1)
+        J = _ym_interval(o, nx.year, nx.month)
+        if dn(J.start) != e + 1 or nx.day != 1:
+            return {"key": "yearmonth-adjacent", "what": f"{c.id}: the month after ({y},{m}) is ({nx.year},{nx.month}); its interval "
+                    f"{show_di(J)} does not start the day after {show_di(I)} ends"}
+        U, V, X = I | J, J | I, I & J
+        if X is not None or U is None or V is None or U != V or (dn(U.start), dn(U.end)) != (s, dn(J.end)) or len(U) != len(I) + len(J):
+            return {"key": "yearmonth-adjacent", "what": f"{c.id}: months ({y},{m}) and ({nx.year},{nx.month}): union {show_di(U)}, "
+                    f"intersection {show_di(X)}; expected the span [{s}, {dn(J.end)}] and no common day"}
     return None
 
 
+def check_year_partition(case):
+    """the month intervals of one year, put in day order, tile the year: first day after the previous year, each adjacent to
+    the next, together as many days as the year has, folding `|` over them gives the whole year"""
+    o, y = case
+    c = cals()[o]
+    ivs = sorted((_ym_interval(o, y, m) for m in range(1, c.get_months_in_year(y) + 1)), key=lambda I: dn(I.start))
+    first, last = dn(ivs[0].start), dn(ivs[-1].end)
+    what = None
+    if any(dn(a.end) + 1 != dn(b.start) for a, b in zip(ivs, ivs[1:])):
+        what = "consecutive month intervals are not adjacent"
+    elif sum(len(I) for I in ivs) != c.get_days_in_year(y) or last - first + 1 != c.get_days_in_year(y):
+        what = f"the month intervals hold {sum(len(I) for I in ivs)} days, the year has {c.get_days_in_year(y)}"
+    elif ld(o, first).year != y or ld(o, last).year != y:
+        what = "an end of the tiling is not in the year"
+    elif (first > c._min_days and ld(o, first - 1).year != y - 1) or (first == c._min_days) != (y == c.min_year):
+        what = f"day {first - 1} before the first month interval is not the last day of year {y - 1}"
+    elif (last < c._max_days and ld(o, last + 1).year != y + 1) or (last == c._max_days) != (y == c.max_year):
+        what = f"day {last + 1} after the last month interval is not the first day of year {y + 1}"
+    else:
+        acc = ivs[0]
+        for I in ivs[1:]:
+            if (acc & I) is not None:
+                what = f"month intervals {show_di(acc)} and {show_di(I)} share a day"
+                break
+            acc = acc | I
+            if acc is None:
+                what = "union of adjacent month intervals is None"
+                break
+        if what is None and (dn(acc.start), dn(acc.end)) != (first, last):
+            what = f"folded union is {show_di(acc)}, expected [{first}, {last}]"
+    if what:
+        return {"key": "yearmonth-partition", "what": f"calendar {c.id} year {y}: {what}; intervals {[show_di(I) for I in ivs]}"}
+    return None
+
+
+EVALUATED = ["cal.wf 4", "cal.wf 5", "cal.wf 8", "cal.wf 17", "cal.wf 18"]
+
+
 def run(ctx):
+    # hypotheses of Pyoda.C09.Evaluated used by the YearMonth theorems (C01's wfCheck for the five calendars without a
+    # symbolic WF instance), evaluated on the compiled driver while the correspondence runs (cal.wf 4|5: about 10 s each)
+    from concurrent.futures import ThreadPoolExecutor
+    import common
+    pool = ThreadPoolExecutor(max_workers=3)
+    groups = [EVALUATED[0:1], EVALUATED[1:2], EVALUATED[2:]]
+    futures = [pool.submit(common.model_eval, g, META["drivers"][0]) for g in groups]
     ops = gen_ops(ctx)
     ctx.correspond("intervals.ops", ops, impl, oracle=oracle, neighbours=neighbours)
-    ctx.check_cases("yearmonth.to_date_interval", year_month_cases(ctx), check_year_month)
+    ym_ops, years = gen_year_month_ops(ctx)
+    ctx.correspond("yearmonth.to_date_interval", ym_ops, impl, oracle=oracle, neighbours=neighbours)
+    ctx.check_cases("yearmonth.year-partition", years, check_year_partition)
+    replies = {}
+    for g, f in zip(groups, futures):
+        replies.update(zip(g, f.result()))
+    pool.shutdown()
+
+    def evaluated_case(op):
+        if replies.get(op) != "1":
+            return {"key": "evaluated-hypothesis-false", "what": f"driver op {op} replied {replies.get(op)!r}: calendar well-formedness "
+                    "(hypothesis Pyoda.C09.Evaluated of the YearMonth theorems) does not hold for the model's calendar description"}
+        return None
+    ctx.check_cases("evaluated-hypotheses", sorted(replies), evaluated_case, exhaustive=True)
 
 
 def replay_op(op, failure):
     if op.startswith("("):
         import ast
-        return check_year_month(ast.literal_eval(op))
+        return check_year_partition(ast.literal_eval(op))
+    if op.startswith("cal.wf"):
+        import common
+        r = common.model_eval([op], META["drivers"][0])[0]
+        return None if r == "1" else {"key": "evaluated-hypothesis-false", "what": f"driver op {op} replied {r!r}"}
     return oracle(op.split(" "))
